@@ -23,18 +23,13 @@ Definition same_frame {A B M} (h : hugr A M) (h' : hugr B M) : Prop :=
   h_root h' = h_root h /\ h_links h' = h_links h /\ Forall2 (slot_rel node_frame) (h_nodes h) (h_nodes h').
 
 (* ------------------------------------------------------------------ "exactly the resolvable operations replaced" *)
-(* at every node of the HUGR and of every HUGR held by a function value inside a constant, at any depth *)
+(* at every node of the HUGR being resolved; the HUGRs held by function values inside constants are not nodes of
+   it: they belong to "everything else" *)
 Inductive RHop (reg : registry) : hop -> hop -> Prop :=
 | RHOp o o' : ROp reg o o' -> RHop reg (HOp o) (HOp o')
 | RHOther k a b l : RHop reg (HOther k a b l) (HOther k a b l)
-| RHConst v v' : RVal reg v v' -> RHop reg (HConst v) (HConst v')
-with RVal (reg : registry) : cval -> cval -> Prop :=
-| RVFunc b b' :
-    h_root b' = h_root b -> h_links b' = h_links b ->
-    Forall2 (slot_rel (fun n n' => node_frame n n' /\ RHop reg (n_op n) (n_op n'))) (h_nodes b) (h_nodes b') ->
-    RVal reg (VFunc b) (VFunc b')
-| RVSum k vs vs' : Forall2 (RVal reg) vs vs' -> RVal reg (VSum k vs) (VSum k vs')
-| RVLeaf k : RVal reg (VLeaf k) (VLeaf k).
+(* a constant is part of the frame, whatever its value holds (the HUGRs of function values included) *)
+| RHConst v : RHop reg (HConst v) (HConst v).
 Definition RNode (reg : registry) (n n' : nodeT) : Prop := node_frame n n' /\ RHop reg (n_op n) (n_op n').
 Definition RHugr (reg : registry) (h h' : hugrT) : Prop :=
   h_root h' = h_root h /\ h_links h' = h_links h /\ Forall2 (slot_rel (RNode reg)) (h_nodes h) (h_nodes h').
@@ -82,29 +77,10 @@ Definition slot_eqb (x y : option nodeT) : bool :=
 Definition hugr_eqb (h h' : hugrT) : bool :=
   Nat.eqb (h_root h') (h_root h) && list_eqb link_eqb (h_links h') (h_links h) && list_eqb slot_eqb (h_nodes h) (h_nodes h').
 
-Fixpoint rhop_b (reg : registry) (a b : hop) : bool :=
+Definition rhop_b (reg : registry) (a b : hop) : bool :=
   match a, b with
   | HOp x, HOp y => rop_b reg x y
-  | HConst v, HConst w => rval_b reg v w
-  | HOther _ _ _ _, _ => hop_eqb a b
-  | _, _ => false
-  end
-with rval_b (reg : registry) (v w : cval) : bool :=
-  let fix vals (l m : list cval) : bool :=
-    match l, m with [], [] => true | x :: r, y :: s => rval_b reg x y && vals r s | _, _ => false end in
-  let fix slots (l m : list (option nodeT)) : bool :=
-    match l, m with
-    | [], [] => true
-    | None :: r, None :: s => slots r s
-    | Some n :: r, Some n' :: s => node_frame_b n n' && rhop_b reg (n_op n) (n_op n') && slots r s
-    | _, _ => false
-    end in
-  match v, w with
-  | VFunc b, VFunc b' =>
-      Nat.eqb (h_root b') (h_root b) && list_eqb link_eqb (h_links b') (h_links b) && slots (h_nodes b) (h_nodes b')
-  | VSum k vs, VSum k' vs' => N.eqb k k' && vals vs vs'
-  | VLeaf k, VLeaf k' => N.eqb k k'
-  | _, _ => false
+  | _, _ => hop_eqb a b
   end.
 Definition rslot_b (reg : registry) (x y : option nodeT) : bool :=
   match x, y with
@@ -116,50 +92,29 @@ Definition rhugr_b (reg : registry) (h h' : hugrT) : bool :=
   Nat.eqb (h_root h') (h_root h) && list_eqb link_eqb (h_links h') (h_links h) &&
   list_eqb (rslot_b reg) (h_nodes h) (h_nodes h').
 
-(* ------------------------------------------------------------------ "at every depth" for operations and HUGRs *)
-(* p holds of every operation of model/Resolve.v at a node of the HUGR or of a HUGR nested in a constant *)
-Fixpoint hop_all (p : op -> bool) (o : hop) : bool :=
-  match o with
-  | HOp x => p x
-  | HOther _ _ _ _ => true
-  | HConst v => cval_all p v
-  end
-with cval_all (p : op -> bool) (v : cval) : bool :=
-  let fix vals (l : list cval) : bool := match l with [] => true | x :: r => cval_all p x && vals r end in
-  let fix slots (l : list (option nodeT)) : bool :=
-    match l with
-    | [] => true
-    | None :: r => slots r
-    | Some n :: r => hop_all p (n_op n) && slots r
-    end in
-  match v with
-  | VFunc b => slots (h_nodes b)
-  | VSum _ vs => vals vs
-  | VLeaf _ => true
-  end.
+(* ------------------------------------------------------------------ predicates on the operations of the HUGR's nodes *)
+(* p holds of the node's operation if it is one of model/Resolve.v (Custom / ExtOp); the operations inside the
+   HUGRs of constants are not operations of the HUGR *)
+Definition hop_holds (p : op -> bool) (o : hop) : bool :=
+  match o with HOp x => p x | _ => true end.
 Definition hugr_all (p : op -> bool) (h : hugrT) : bool :=
-  forallb (fun x => match x with Some n => hop_all p (n_op n) | None => true end) (h_nodes h).
+  forallb (fun x => match x with Some n => hop_holds p (n_op n) | None => true end) (h_nodes h).
 
-(* nothing the registry could resolve: no opaque operation with a definition, at any depth *)
+(* nothing the registry could resolve: not an opaque operation with a definition *)
 Definition untouchable_op (reg : registry) (o : op) : bool :=
   match o with OCustom c => negb (resolvable_op_b reg (c_ext c) (c_name c)) | _ => true end.
-(* the guards of the per-operation theorems, at every depth *)
+(* the guard of the per-operation encoding theorems, at every node *)
 Definition consistent_hugr (reg : registry) : hugrT -> bool := hugr_all (consistent_op reg).
 
 (* ------------------------------------------------------------------ the serialised document *)
-(* two documents agree except, possibly, in descriptions of Extension operations (at any depth: the documents of
-   function values included), each then being the description of a definition filed under the operation's name *)
+(* two documents agree except, possibly, in descriptions of Extension operations at the nodes of the document, each
+   then being the description of a definition filed under the operation's name; constants (with the documents of
+   their function values) are identical *)
 Inductive SameSop (reg : registry) : sop -> sop -> Prop :=
 | SSOp a b : same_but_descr reg a b -> SameSop reg (SOp a) (SOp b)
 | SSOther k : SameSop reg (SOther k) (SOther k)
-| SSConst v v' : SameSval reg v v' -> SameSop reg (SConst v) (SConst v')
-with SameSval (reg : registry) : sval -> sval -> Prop :=
-| SSFunc d d' :
-    s_edges d' = s_edges d -> s_meta d' = s_meta d ->
-    Forall2 (fun a b => s_parent b = s_parent a /\ SameSop reg (s_op a) (s_op b)) (s_nodes d) (s_nodes d') ->
-    SameSval reg (SVFunc d) (SVFunc d')
-| SSSum k vs vs' : Forall2 (SameSval reg) vs vs' -> SameSval reg (SVSum k vs) (SVSum k vs')
-| SSLeaf k : SameSval reg (SVLeaf k) (SVLeaf k).
+(* the serial form of a constant, the documents of its function values included, is identical *)
+| SSConst v : SameSop reg (SConst v) (SConst v).
 Definition SameDoc (reg : registry) (d d' : serialT) : Prop :=
   s_edges d' = s_edges d /\ s_meta d' = s_meta d /\
   Forall2 (fun a b => s_parent b = s_parent a /\ SameSop reg (s_op a) (s_op b)) (s_nodes d) (s_nodes d').
@@ -169,7 +124,7 @@ Definition sedge_eqb (a b : sedge) : bool := sport_eqb (fst a) (fst b) && sport_
 Definition smeta_eqb (a b : option (list (option md))) : bool := option_eqb (list_eqb (option_eqb N.eqb)) a b.
 
 Section SopRel.
-  (* rel = same_but_descr_b reg for the monitor, op_eqb for plain equality *)
+  (* rel = op_eqb: plain equality of serial operations / values / documents *)
   Variable rel : op -> op -> bool.
   Fixpoint sop_rel (a b : sop) : bool :=
     match a, b with
@@ -198,7 +153,15 @@ Section SopRel.
     list_eqb sedge_eqb (s_edges d') (s_edges d) && smeta_eqb (s_meta d') (s_meta d) &&
     list_eqb (fun a b => Nat.eqb (s_parent b) (s_parent a) && sop_rel (s_op a) (s_op b)) (s_nodes d) (s_nodes d').
 End SopRel.
-Definition same_doc_b (reg : registry) : serialT -> serialT -> bool := doc_rel (same_but_descr_b reg).
+Definition sop_eqb : sop -> sop -> bool := sop_rel op_eqb.
+Definition same_sop_b (reg : registry) (a b : sop) : bool :=
+  match a, b with
+  | SOp x, SOp y => same_but_descr_b reg x y
+  | _, _ => sop_eqb a b
+  end.
+Definition same_doc_b (reg : registry) (d d' : serialT) : bool :=
+  list_eqb sedge_eqb (s_edges d') (s_edges d) && smeta_eqb (s_meta d') (s_meta d) &&
+  list_eqb (fun a b => Nat.eqb (s_parent b) (s_parent a) && same_sop_b reg (s_op a) (s_op b)) (s_nodes d) (s_nodes d').
 Definition doc_eqb : serialT -> serialT -> bool := doc_rel op_eqb.
 
 (* ------------------------------------------------------------------ port types *)
